@@ -6,6 +6,7 @@ import (
 	"os"
 	"path/filepath"
 	"strconv"
+	"verif.local/simrt"
 )
 
 // Enumerated (non-rapid) checks report a failing case as a small JSON file
@@ -90,3 +91,16 @@ func (r *Rng) Next() uint64 {
 	return r.x
 }
 func (r *Rng) Intn(n int) int { return int(r.Next() % uint64(n)) }
+
+// RandomChooser builds pre-drawn choice streams of length n from r, for the
+// enumerated parts of a check that are not driven by rapid (one PRNG value
+// still decides everything; a stream that runs out means "default choice").
+func RandomChooser(r *Rng, n int) *simrt.Chooser {
+	ch := &simrt.Chooser{}
+	for i := 0; i < n; i++ {
+		ch.SchedS = append(ch.SchedS, uint16(r.Next()))
+		ch.SelS = append(ch.SelS, uint8(r.Next()))
+		ch.IOS = append(ch.IOS, 0) // reads are not split behind the caller's back
+	}
+	return ch
+}
